@@ -22,3 +22,53 @@ def replay(prop, path):
         j = json.load(f)
     print(json.dumps(j, indent=1, ensure_ascii=False)[:4000])
     return 0
+
+
+def c03(tier, seed):
+    return gcheck.run_property(
+        "C03", tier, seed, suites.c03_cases(tier, seed), "reference",
+        functions_encoded=["generated `Locale::a | Locale::b =>` arms of every accessor (view, Display, literal)"],
+        bounds="default + 3 other locales; every `inherits` map over them (125, incl. cycles, self reference, explicit inheritance from the default); presence patterns defined/null/absent for a string, an interpolation, a number, a range and a subkey group with nested group (quick: one pattern per map, thorough: all 27 per map).")
+
+
+def c04(tier, seed):
+    return gcheck.run_property(
+        "C04", tier, seed, suites.c04_cases(tier, seed), "reference",
+        functions_encoded=["generated `match count {..}` (integers) and `if` chains (floats) of both back-ends",
+                           "parse-time branch selection seen through foreign keys with a literal count"],
+        bounds="all 10 numeric types + default i32; <=4 branches + fallback, <=3 alternatives per branch, bounds from type extremes and small values; counts: every value of the type (bit-vector / IEEE float incl. NaN, inf); both syntaxes.")
+
+
+def c05(tier, seed):
+    return gcheck.run_property(
+        "C05", tier, seed, suites.c05_cases(tier, seed), "reference",
+        functions_encoded=["generated `match rules.category_for(count)` of both back-ends", "get_plural_rules arguments"],
+        bounds="subsets of plural forms with _other, cardinal/ordinal, locales from en fr ru ar pl ja cy; category function uninterpreted (every category for every count/locale).",
+        extra_assumptions=["the CLDR category of a count is icu_plurals' answer (used only for literal counts in foreign keys)"])
+
+
+CHECKS.update({"C03": c03, "C04": c04, "C05": c05})
+
+
+def c06(tier, seed):
+    return gcheck.run_property(
+        "C06", tier, seed, suites.c06_cases(tier, seed), "reference",
+        functions_encoded=["generated accessors of referencing keys (the substituted value is what the generator emitted)"],
+        bounds="targets of every kind (string, numbers, bool, interpolation, component, int/float range, plural, subkey paths, other namespace) x argument kinds (string, numbers, bool, interpolated, nested $t, nested $t with args, component) x reference before/after target in key order; literal and renamed counts; chains of depth 3; references inside plural forms and range branches; null targets with/without inherits; 9 invalid graphs (unresolved, subkey group, 1/2/3-cycles, cycle through an argument).",
+        extra_assumptions=["a reference to a key that is absent (not null) from the referencing locale is documented as unsupported: not decided",
+                           "the CLDR category of a literal count is icu_plurals' answer"])
+
+
+CHECKS.update({"C06": c06})
+
+
+def c02(tier, seed):
+    return gcheck.run_property(
+        "C02", tier, seed, suites.c02_cases(tier, seed), "pairwise",
+        functions_encoded=["generated into_view / Display::fmt / build_string / build_display / literal accessors",
+                           "expansions of the real t_macro_inner for td!/t!/tu! x view/string/display (9 flavours) evaluated down into the generated items"],
+        bounds="the project families of C01, C03, C04, C05, C06 (sub-sampled in the quick tier); per key: view vs Display vs String vs the nine macro expansions, for every locale / argument / count / category. Outside: scope_i18n!/use_i18n_scoped!/scope_locale! (type-state in library code, resolved by rustc's trait dispatch, not generated code).",
+        extra_assumptions=["`t!(ctx, ..)` reads the context's current locale: I18nContext::get_keys(ctx) is modelled as Locale::get_keys(locale of ctx)"])
+
+
+CHECKS.update({"C02": c02})
